@@ -372,8 +372,6 @@ type dispatcherCompleteEvent struct {
 func (e dispatcherCompleteEvent) apply(s *state) {
 	infoHash := e.dispatcher.InfoHash()
 
-	s.conns.ClearBlacklist(infoHash)
-	s.announceQueue.Eject(infoHash)
 	ctrl, ok := s.torrentControls[infoHash]
 	if !ok {
 		s.log("dispatcher", e.dispatcher).Error("Completed dispatcher not found")
@@ -382,10 +380,12 @@ func (e dispatcherCompleteEvent) apply(s *state) {
 	if ctrl.dispatcher != e.dispatcher {
 		// The notice comes from a dispatcher which has been removed since, and the
 		// torrent has been added again: the new download is not complete because an
-		// earlier one was.
+		// earlier one was. In particular it must stay in the announce queue.
 		s.log("dispatcher", e.dispatcher).Info("Ignoring completion of a removed dispatcher")
 		return
 	}
+	s.conns.ClearBlacklist(infoHash)
+	s.announceQueue.Eject(infoHash)
 	for _, errc := range ctrl.errors {
 		errc <- nil
 	}
